@@ -206,6 +206,10 @@ class PartProcessor(PartHandler, Maintainable):
             self._env.cancel_matching_events(asset_id = self.id)
         else:
             self._env.pause_matching_events(asset_id = self.id)
+            if self._part == None:
+                # Nothing is being processed: the release that may be
+                # pending was just paused, do not keep the resources.
+                self._release_reserved_resources()
 
         self._uptime += self.env.now - self._last_restore
         self._last_restore = None
